@@ -42,7 +42,16 @@ DEFAULT_CONFIGS = [
     {'name': 'full-nofault', 'mode': 'full', 'cfg': 'nofault', 'share': 2},
 ]
 
-OVERRIDES = {}
+OVERRIDES = {
+    'C14': {
+        'level': 'fault_enumeration',
+        'configs': DEFAULT_CONFIGS + [
+            # every single fault kind at every I/O call index of a fault-free run (DESIGN.md 3.14)
+            {'name': 'plain-enumeration', 'mode': 'plain', 'cfg': 'nofault', 'share': 3, 'cmd': 'enum', 'counter': 2},
+            {'name': 'asan-enumeration', 'mode': 'asan', 'cfg': 'nofault', 'share': 1, 'cmd': 'enum', 'counter': 2},
+        ],
+    },
+}
 
 
 def plan_for(prop, tier):
